@@ -1,6 +1,8 @@
 (* C13 — ranges, sign conventions and classification predicates.  Statements only. *)
 From Coq Require Import Reals Bool.
 From VP Require Import Lib RLib Trig Compute Tables C13_range C13_causal C13_par C13_sign.
+From VP Require Import Spec Spec_spatial1 Spec_spatial2 Spec_lorentz Spec_lorentz2.
+From Coq Require Import Lra.
 From VP Require ObjModel ObjNames NbModel NbApi NbChecks.
 Import ObjNames List.ListNotations.
 Open Scope R_scope.
@@ -55,6 +57,29 @@ Theorem C13_beta_gamma_partial :
   (forall x y z t, 0 < t -> x * x + y * y + z * z = t * t ->
      holds (rn (T_lorentz_beta XY LZ TT x y z t)) (fun b => b = 1)).
 Proof. exact (conj beta_gamma_timelike beta_lightlike). Qed.
+
+(* ... and in EVERY coordinate system (12 signatures, t or tau stored): forward time-like => 0 <= beta < 1 and gamma >= 1;
+   light-like => beta = 1 *)
+Theorem C13_beta_gamma_all_signatures : forall s l t a b c d, rep4 s l t a b c d ->
+  let T := st s l t a b c d in let P2 := smag2 s l a b c in
+  (0 < T -> P2 < T * T ->
+     (exists bt, numr (T_lorentz_beta s l t a b c d) = Some bt /\ 0 <= bt < 1) /\
+     (exists g, numr (T_lorentz_gamma s l t a b c d) = Some g /\ 1 <= g)) /\
+  (0 < T -> P2 = T * T -> numr (T_lorentz_beta s l t a b c d) = Some 1).
+Proof.
+  intros s l t a b c d H T P2. pose proof (smag2_nonneg s l a b c) as HP. fold P2 in HP. split.
+  - intros HT Htl. split.
+    + exists (sqrt P2 / T). split; [exact (beta_spec s l t a b c d H)|].
+      assert (Hs : sqrt P2 < T). { pose proof (sqrt_lt_1_alt P2 (T * T)) as Hx. rewrite (sqrt_square T) in Hx by lra. apply Hx. lra. }
+      pose proof (sqrt_pos P2). split.
+      * apply Rmult_le_pos; [assumption | left; apply Rinv_0_lt_compat; exact HT].
+      * apply (Rmult_lt_reg_r T); [exact HT|]. unfold Rdiv. rewrite Rmult_assoc, Rinv_l by lra. lra.
+    + exists (T / sqrt (T * T - P2)). split; [apply (gamma_spec s l t a b c d H); fold T P2; lra|].
+      assert (Hq : 0 < T * T - P2) by lra. pose proof (sqrt_lt_R0 _ Hq) as Hs.
+      assert (Hle : sqrt (T * T - P2) <= T). { pose proof (sqrt_le_1_alt (T * T - P2) (T * T)) as Hx. rewrite (sqrt_square T) in Hx by lra. apply Hx. lra. }
+      apply (Rmult_le_reg_r (sqrt (T * T - P2))); [exact Hs|]. unfold Rdiv. rewrite Rmult_assoc, Rinv_l by lra. lra.
+  - intros HT Hll. rewrite (beta_spec s l t a b c d H). fold T P2. rewrite Hll, sqrt_square by lra. f_equal. field. lra.
+Qed.
 
 (* with one tolerance the three causal predicates are decided by d = v.v: d > |tol|, |d| < |tol|, d < -|tol| *)
 Theorem C13_causal_follow_sign : forall s l t tol a b c d,
